@@ -592,29 +592,31 @@ func init() {
 	})
 
 	register(&Rule{
-		ID: "C10.R6", Props: []string{"C10", "C15", "C09"}, Min: 3,
-		Doc: "memoised results are keyed by everything they depend on: for every mutex-guarded cache map, the value stored under a key is computed only from the key (and constants / the engine's immutable configuration), never from per-call data that is not part of the key",
+		ID: "C10.R6", Props: []string{"C10", "C15", "C09", "C13", "C20"}, Min: 3,
+		Doc: "memoised results are keyed by everything they depend on: for every cache written while rendering — a mutex-guarded map of an engine object, or a package-level sync.Map / map — the value stored under a key is computed only from the key (plus constants and, for a per-engine cache, the engine's own configuration); it never depends on per-call data that is not part of the key, and a package-level cache never depends on the instance that filled it",
 		Run: func(p *Prog, c *Ctx) {
-			acc := p.collectSharedAccesses()
-			cone := p.Cone(p.concurrentEntries()...)
-			for _, a := range acc {
-				mu, ok := a.at.(*ssa.MapUpdate)
-				if !ok {
-					continue
-				}
-				fn := a.fn
-				if !cone[fn] {
-					continue // registries filled during set-up (Funcs, RegisterComponent, loadConfig) are not memoisation
-				}
-				key := shortName(fn) + ": " + a.owner + "." + a.field
-				// parameters the key depends on
+			cone := p.Cone(append(p.concurrentEntries(), p.exportedEntries(markdownPkg)...)...)
+			check := func(fn *ssa.Function, at ssa.Instruction, keyV, valV ssa.Value, desc string, global bool) {
 				keyParams := map[*ssa.Parameter]bool{}
-				for _, o := range p.origins(mu.Key, OriginOpts{}) {
-					if prm, ok := o.(*ssa.Parameter); ok {
-						keyParams[prm] = true
+				var kwalk func(v ssa.Value, d int)
+				kseen := map[ssa.Value]bool{}
+				kwalk = func(v ssa.Value, d int) {
+					if v == nil || kseen[v] || d > 8 {
+						return
+					}
+					kseen[v] = true
+					for _, o := range p.origins(v, OriginOpts{}) {
+						switch x := o.(type) {
+						case *ssa.Parameter:
+							keyParams[x] = true
+						case *ssa.Call:
+							for _, a := range callArgs(&x.Call) {
+								kwalk(a, d+1)
+							}
+						}
 					}
 				}
-				// parameters the value depends on (through calls: all arguments)
+				kwalk(keyV, 0)
 				bad := ""
 				seen := map[ssa.Value]bool{}
 				var walk func(v ssa.Value, depth int)
@@ -626,11 +628,21 @@ func init() {
 					for _, o := range p.origins(v, OriginOpts{}) {
 						switch x := o.(type) {
 						case *ssa.Parameter:
-							if !keyParams[x] && x != fn.Params[0] || (x == fn.Params[0] && fn.Signature.Recv() == nil && !keyParams[x]) {
-								if fn.Signature.Recv() != nil && x == fn.Params[0] {
-									continue
-								}
+							isRecv := fn.Signature.Recv() != nil && len(fn.Params) > 0 && x == fn.Params[0]
+							if keyParams[x] {
+								continue
+							}
+							if isRecv && !global {
+								continue
+							}
+							if isRecv {
+								bad = "the value cached in package-level storage depends on the instance (receiver) that computed it"
+							} else {
 								bad = fmt.Sprintf("the cached value depends on parameter %q, which is not part of the key", x.Name())
+							}
+						case *ssa.FreeVar:
+							if global {
+								bad = "the value cached in package-level storage depends on captured state of the caller"
 							}
 						case *ssa.Call:
 							for _, a := range callArgs(&x.Call) {
@@ -642,8 +654,12 @@ func init() {
 									walk(a, depth+1)
 								}
 							}
+						case *ssa.UnOp:
+							// loads through the receiver's fields count as the receiver
+							if strings.HasPrefix(accessPath(x), "param0") && fn.Signature.Recv() != nil && global {
+								bad = "the value cached in package-level storage depends on the instance (receiver) that computed it"
+							}
 						case *ssa.Alloc:
-							// composite literal: every field store
 							if refs := x.Referrers(); refs != nil {
 								for _, r := range *refs {
 									if fa, ok := r.(*ssa.FieldAddr); ok {
@@ -664,13 +680,60 @@ func init() {
 											}
 										}
 									}
+									// a buffer filled by calls: everything written into it (also when passed as an interface)
+									users := []ssa.Instruction{r}
+									if mi, ok := r.(*ssa.MakeInterface); ok {
+										if mrefs := mi.Referrers(); mrefs != nil {
+											users = append(users, *mrefs...)
+										}
+									}
+									for _, u := range users {
+										if site, ok := u.(ssa.CallInstruction); ok {
+											for _, a := range callArgs(site.Common()) {
+												if a != x {
+													walk(a, depth+1)
+												}
+											}
+										}
+									}
 								}
 							}
 						}
 					}
 				}
-				walk(mu.Value, 0)
-				c.check(bad == "", key, p.instrPos(mu), "stored value is a function of the key (and the receiver's configuration) only", bad+": a later lookup with the same key returns a result computed for other data")
+				walk(valV, 0)
+				c.check(bad == "", shortName(fn)+": "+desc, p.instrPos(at), "stored value is a function of the key (and the engine's configuration) only", bad+": a later lookup with the same key returns a result computed for other data")
+			}
+			for _, a := range p.collectSharedAccesses() {
+				mu, ok := a.at.(*ssa.MapUpdate)
+				if !ok || !cone[a.fn] {
+					continue // registries filled during set-up (Funcs, RegisterComponent, loadConfig) are not memoisation
+				}
+				check(a.fn, mu, mu.Key, mu.Value, a.owner+"."+a.field, strings.HasPrefix(a.base, "global:"))
+			}
+			for _, fn := range sortedFuncs(cone) {
+				for _, site := range callsIn(fn) {
+					n := calleeName(site.Common())
+					if n != "(*sync.Map).Store" && n != "(*sync.Map).LoadOrStore" && n != "(*sync.Map).Swap" {
+						continue
+					}
+					args := site.Common().Args
+					root := accessPath(args[0])
+					check(fn, site, args[1], args[2], "sync.Map "+root, strings.HasPrefix(root, "global:"))
+				}
+				eachInstr(fn, func(in ssa.Instruction) {
+					if mu, ok := in.(*ssa.MapUpdate); ok && strings.HasPrefix(accessPath(mu.Map), "global:") {
+						already := false
+						for _, a := range p.collectSharedAccesses() {
+							if a.at == in {
+								already = true
+							}
+						}
+						if !already {
+							check(fn, mu, mu.Key, mu.Value, "package-level map "+accessPath(mu.Map), true)
+						}
+					}
+				})
 			}
 		},
 	})
@@ -777,5 +840,16 @@ func constsComparedWithParam(fn *ssa.Function, idx int) []string {
 		}
 	})
 	sort.Strings(out)
+	return out
+}
+
+// exportedEntries: exported functions and methods of one module package.
+func (p *Prog) exportedEntries(pkgPath string) []*ssa.Function {
+	var out []*ssa.Function
+	for _, fn := range p.Funcs {
+		if pk := funcPkg(fn); pk != nil && pk.Path() == pkgPath && fn.Parent() == nil && token.IsExported(fn.Name()) {
+			out = append(out, fn)
+		}
+	}
 	return out
 }
